@@ -43,6 +43,9 @@ def tasks(tier, seed=0):
     R = "vf.contracts.strfold:replay"
     out = [task(M, "ob_fold", f"strings.{op}/folded-equals-solved", ["C03", "C04"], replay=R, op=op, tier=tier, maxlen=2 if tier == "quick" else 3) for op in strfold.OPS]
     out.append(task(M, "ob_translation", "z3t.strings/is-the-smtlib-function", ["C03"], tier=tier))
+    # no string operation is rewritten at construction (the rewrite table has no reachable string entry): a rewriter added for one needs an obligation
+    from vf.props import C01 as _C01
+    out += _C01._table_task()
     for g, n in (("rel", 4), ("index", 6), ("misc", 2), ("esc", 4)):
         for sh in range(n):
             out.append(task("vf.bounded.str_boundary", "run", f"str.{g}/bounded#{sh}", ["C03"], kind="bounded", replay="vf.bounded.str_boundary:replay",
